@@ -80,6 +80,11 @@ def run_cases(mod, cases, driver, stats):
         stats["evaluations"] += 1
         if rec is not None and stats.get("bsteps", 0) < stats.get("bstep_cap", 4000):
             extra = rec.requests(stats["dist"])
+            k = stats.get("bstep_per_case")
+            if k and len(extra) > k:
+                # an evenly spread sample of the case's calls (first and last included)
+                step = (len(extra) - 1) / float(k - 1)
+                extra = [extra[int(round(i * step))] for i in range(k)]
             stats["bsteps"] = stats.get("bsteps", 0) + len(extra)
             res.requests = list(res.requests) + extra
         for t in res.tags:
@@ -221,7 +226,8 @@ def check(mod, pid, tier, seed, t0):
 
     # ---- 3: corpus, then generated cases
     stats = new_stats()
-    stats["bstep_cap"] = 4000 if tier == "quick" else 40000     # builder calls run through the model per check
+    stats["bstep_cap"] = 20000 if tier == "quick" else 100000   # builder calls run through the model per check
+    stats["bstep_per_case"] = 8 if tier == "quick" else 40     # … and per case, so that every generated stream is reached
     rng = random.Random("%s/%s" % (seed, pid))
     kf_entries = common.load_kf(pid)
     kf_open = {common.sig_key(e["signature"]): e for e in kf_entries if e.get("status") == "finding"}
